@@ -623,9 +623,12 @@ fn run(kind: &str, input: &Value) -> Value {
 
 /// length of the bytes write_cloud_jsonl_vec stores for these records under this key
 fn stored_len(key: &str, recs: &[Value]) -> usize {
+    // (the generator must survive a broken writer: no panic here, the cases will tell)
     let st = FakeObjectIO::new();
-    write_cloud_jsonl_vec(&st, BUCKET, key, recs).unwrap();
-    st.get_object(BUCKET, key).unwrap().len()
+    if write_cloud_jsonl_vec(&st, BUCKET, key, recs).is_err() {
+        return usize::MAX;
+    }
+    st.get_object(BUCKET, key).map_or(usize::MAX, |b| b.len())
 }
 
 /// same shape and the same serialised width, different content: every digit / ASCII letter is
@@ -1581,7 +1584,7 @@ fn generate_more(seed: u64, tier: Tier, em: &mut Emitter) {
     let shapes: Vec<(u64, u64)> = if thorough {
         vec![(1, 1 << 21), (1, 1 << 22), (3, 1 << 20), (5, (1 << 20) + 1), (64, 1 << 15), (1024, 1 << 11), (40, 70000), (70000, 40), (300, 10000), (17, 1 << 20), (1, (1 << 24) + 1), (65, 1 << 20)]
     } else {
-        vec![(1, 1 << 21), (3, 1 << 20), (64, 1 << 15), (1024, 1 << 11), (40, 70000), (17, 1 << 20), (1, (1 << 24) + 1)]
+        vec![(1, 1 << 21), (3, 1 << 20), (64, 1 << 15), (1024, 1 << 11), (40, 70000), (9, 1 << 20), (17, 1 << 20), (1, (1 << 24) + 1)]
     };
     for key in &wide_keys {
         for &(n, w) in &shapes {
